@@ -121,12 +121,12 @@ def expected_class(tp: AnyType) -> type:
         return NoneType
     elif is_typed_dict(origin):
         return collections.abc.Mapping
+    elif is_type_var(origin) or origin is Any:  # Any is a class since Python 3.11
+        return object
     elif is_type(origin):
         return origin
     elif is_new_type(origin):
         return expected_class(origin.__supertype__)
-    elif is_type_var(origin) or origin is Any:
-        return object
     else:
         raise TypeError(f"{tp} is not supported in union serialization")
 
